@@ -174,7 +174,6 @@ func (e TreeMapEngine) Execute(sc *core.Scenario, st *core.Stats) (*core.Violati
 	return v, nt
 }
 
-
 func (e TreeMapEngine) execute(sc *core.Scenario, k TMKnobs, st *core.Stats) (*core.Violation, bool, int) {
 	maxDepth := 0
 	keys := UnhexKeys(k.Keys)
